@@ -21,9 +21,23 @@
    leaving the first [lost] ARP requests unanswered; frames = (time in microseconds, kind, link
    destination, a, b): kind 1 = ARP request (a = target IP, b = sender MAC ++ sender IP),
    kind 2 = IPv4 packet (a = destination IP, b = [protocol]), 3 = anything else; tend = when the
-   operation finished; result: 0 done (datagram / SYN on the wire), 1 ErrNoLinkAddress, 2 other. *)
+   operation finished; result: 0 done (datagram / SYN on the wire), 1 ErrNoLinkAddress, 2 other.
+
+   CNdp: one IPv6 packet (a neighbour solicitation / advertisement and mutations of them) injected
+   into a fresh real stack whose NIC has the IPv6 addresses [locals] (multicast groups only when
+   listed), handed up as views of the sizes [chunks] ([] = one view) with link-layer source
+   [srcMAC]; observed: frames handed to the link endpoint (ethertype, bytes, link destination) and
+   the answers of Stack.GetLinkAddress afterwards, as for CArp.
+
+   CNdpReq: the stack's own neighbour solicitation for [addr]: kind 0 = ipv6 LinkAddressRequest
+   called directly with (addr, localAddr, a recording link endpoint with address myMAC), kind 1 =
+   Stack.GetLinkAddress on an empty cache (what Route.Resolve calls), kind 2 = a UDP write to the
+   unresolved neighbour; frames = (ethertype, bytes, link destination, link source) of what was
+   handed to the link endpoint (kinds 1, 2: until shortly after the first frame). *)
 From Coq Require Import ZArith Bool List.
 From NP Require Import Model.Bytes Model.Arp Model.LinkCache Model.Resolve.
+From NP Require Model.Echo.
+From NP Require Import Model.Ndp.
 Import ListNotations.
 Open Scope Z_scope.
 
@@ -47,7 +61,11 @@ Inductive case :=
 (* nreq: LinkAddressRequest calls seen by the test resolver; next: the cache's ring index at the end *)
 | CCache (N age attempts timeout : Z) (evs : list cev) (nreq next : Z)
 | CScen (kind via lost : Z) (myMAC myIP dest gw peerMAC : list Z)
-        (frames : list (Z * Z * list Z * list Z * list Z)) (tend result : Z).
+        (frames : list (Z * Z * list Z * list Z * list Z)) (tend result : Z)
+| CNdp (locals : list (list Z)) (myMAC srcMAC : list Z) (pkt : list Z) (chunks : list Z)
+       (panicked : bool) (frames : list (Z * list Z * list Z)) (lookups : list (list Z * bool * list Z))
+| CNdpReq (kind : Z) (addr localAddr myMAC : list Z) (panicked : bool)
+          (frames : list (Z * list Z * list Z * list Z)).
 
 Definition bneq (a b : bool) : Z := if Bool.eqb a b then 0 else 1.
 Definition zneq (a b : Z) : Z := if a =? b then 0 else 1.
@@ -225,6 +243,77 @@ Definition corr_scen (lost : Z) (myMAC myIP dest gw peerMAC : list Z)
       end
   end.
 
+(* -- neighbour discovery -- *)
+Definition ip6Proto : Z := 34525.
+(* netx.Link.InjectFrom: for each chunk size c: c = min(c, len(rest)); views += rest[:c]; rest = rest[c:];
+   then if len(rest) > 0 || len(views) == 0 { views += rest } *)
+Fixpoint split_rec (pkt : list Z) (chunks : list Z) : list (list Z) :=
+  match chunks with
+  | [] => match pkt with [] => [] | _ => [pkt] end
+  | c :: cs => firstn (Z.to_nat c) pkt :: split_rec (skipn (Z.to_nat c) pkt) cs
+  end.
+Definition split_views (pkt : list Z) (chunks : list Z) : list (list Z) :=
+  match chunks with [] => [pkt] | _ => split_rec pkt chunks end.
+
+(* what a lookup must answer on a cache that was empty before the AddLinkAddress calls [learn]
+   (in program order: the last call for an address decides) *)
+Definition learned_of (learn : list (list Z * list Z)) (ip : list Z) : option (list Z) :=
+  fold_left (fun acc e => if leqb (fst e) ip then Some (snd e) else acc) learn None.
+Definition lookup_ok_l (learn : list (list Z * list Z)) (l : list Z * bool * list Z) : bool :=
+  match l with (ip, found, mac) =>
+    match learned_of learn ip with
+    | Some m => found && leqb mac m
+    | None => negb found
+    end
+  end.
+
+Definition corr_ndp (locals : list (list Z)) (myMAC srcMAC pkt chunks : list Z) (panicked : bool)
+  (frames : list (Z * list Z * list Z)) (lookups : list (list Z * bool * list Z)) : Z :=
+  let views := split_views pkt chunks in
+  let check (want : option (list (Z * list Z * list Z))) (learn : list (list Z * list Z)) :=
+    match want with
+    | None => 1
+    | Some w => if negb panicked && frames_eqb w frames && forallb (lookup_ok_l learn) lookups then 0 else 1
+    end in
+  match nd_deliver locals myMAC srcMAC views with
+  | NdPanic => bneq panicked true
+  | NdDone sent learn =>
+      check (match sent with
+             | None => Some []
+             | Some p => match nd_frame p with
+                         | Some b => Some [(ip6Proto, b, np_linkdst p)]
+                         | None => None
+                         end
+             end) learn
+  | NdOther =>
+      (* not a neighbour discovery message: the other branches of handleICMP (Model/Echo.v); nothing
+         is learned; an echo request is answered to the link-layer source *)
+      match Echo.nic6_deliver locals views with
+      | Some (Echo.NICMP r v) =>
+          match Echo.handleICMP6 r v with
+          | None => bneq panicked true
+          | Some (Echo.A6Reply p) =>
+              check (match Echo.ip6_write p with Some b => Some [(ip6Proto, b, srcMAC)] | None => None end) []
+          | Some _ => check (Some []) []
+          end
+      | _ => check (Some []) []
+      end
+  end.
+
+Definition frame4_eqb (f g : Z * list Z * list Z * list Z) : bool :=
+  match f, g with (p1, b1, d1, s1), (p2, b2, d2, s2) => (p1 =? p2) && leqb b1 b2 && leqb d1 d2 && leqb s1 s2 end.
+
+Definition corr_ndpreq (kind : Z) (addr localAddr myMAC : list Z) (panicked : bool)
+  (frames : list (Z * list Z * list Z * list Z)) : Z :=
+  match nd_link_address_request addr localAddr myMAC with
+  | None => if kind =? 0 then bneq panicked true else 1
+  | Some (b, d, s) =>
+      match frames with
+      | [f] => if negb panicked && frame4_eqb (ip6Proto, b, d, s) f then 0 else 1
+      | _ => 1
+      end
+  end.
+
 (* ---- corr: the model on the same inputs does what the implementation did ---- *)
 Definition corr (c : case) : Z :=
   match c with
@@ -244,6 +333,10 @@ Definition corr (c : case) : Z :=
       end
   | CScen kind via lost myMAC myIP dest gw peerMAC frames tend result =>
       if corr_scen lost myMAC myIP dest gw peerMAC frames tend result then 0 else 1
+  | CNdp locals myMAC srcMAC pkt chunks panicked frames lookups =>
+      corr_ndp locals myMAC srcMAC pkt chunks panicked frames lookups
+  | CNdpReq kind addr localAddr myMAC panicked frames =>
+      corr_ndpreq kind addr localAddr myMAC panicked frames
   end.
 
 (* ---- spec: the property text, evaluated on the implementation's output, without the model ---- *)
@@ -411,6 +504,125 @@ Definition spec_scen (via lost : Z) (myMAC myIP dest gw peerMAC : list Z)
                       leqb (fdst f) (if via <? 2 then peerMAC else if via =? 2 then myMAC else bcast) &&
                       forallb (fun r => ftime r <? ftime f) arps) datas.
 
+(* -- monitor for neighbour discovery (RFC 4861 section 4.3/4.4 layouts, RFC 4443 2.3 checksum, RFC 4291
+   2.7.1 solicited-node address), written with plain byte positions and its own one's-complement sum --
+
+   Reading of the property text for IPv6: "its own addresses" = the unicast addresses assigned to the
+   NIC; a solicitation is "addressed to it" when its IPv6 destination is an address / group of the
+   NIC or the solicited-node multicast address of the target (the group every holder of the target
+   must listen on); "its own link address" = the link endpoint's address in a target link-layer
+   address option; "addressed to the requester" = IPv6 destination = the solicitation's source, link
+   destination = the frame's link-layer source; "the sender's mapping" = the sender's IPv6 address
+   (advertisements: the target address) and the link-layer address the sender states in its
+   source / target link-layer address option, or the frame's link-layer source when the message has
+   no such option right behind the target.  The ICMPv6 checksum, hop limit and code of the inbound
+   message are not part of the property text and are not looked at.
+   Messages whose first view ends inside the part the handler reads (the C13-split-header
+   situation) may be answered / learned from or not.
+   Result: 0 ok, 1 violation,
+     2 = a solicitation for an own address sent to the target's solicited-node multicast address is
+         not answered because the NIC never joined that group (C12-ndp-solicited-node-not-joined),
+     3 = a solicitation whose target is a multicast group the NIC joined is answered, with the
+         group address as source (C12-ndp-multicast-target-answered),
+     4 = the link address recorded is the frame's link-layer source although the sender stated a
+         different one in its link-layer address option (C12-ndp-lladdr-option-ignored). *)
+Fixpoint wsum16 (l : list Z) : Z :=
+  match l with
+  | a :: b :: t => a * 256 + b + wsum16 t
+  | [a] => a * 256
+  | [] => 0
+  end.
+Definition fold16 (x : Z) : Z :=
+  let y := x mod 65536 + x / 65536 in y mod 65536 + y / 65536.
+(* RFC 4443 2.3 / RFC 2460 8.1: pseudo-header (source, destination, 32-bit upper-layer length, three
+   zero bytes, next header 58) followed by the message sums to 0xffff *)
+Definition icmp6_sum_ok (src dst msg : list Z) : bool :=
+  let n := Z.of_nat (length msg) in
+  fold16 (wsum16 (src ++ dst ++ [0; 0; n / 256; n mod 256] ++ [0; 0; 0; 58] ++ msg)) =? 65535.
+Definition is_mc (a : list Z) : bool := match a with x :: _ => x =? 255 | [] => false end.
+Definition sn_of (a : list Z) : list Z := [255; 2; 0; 0; 0; 0; 0; 0; 0; 0; 0; 1; 255] ++ skipn 13 a.
+Definition all_zero (l : list Z) : bool := forallb (Z.eqb 0) l.
+
+(* [b] is an IPv6 packet carrying exactly one ICMPv6 message [msg] of 32 bytes from [src] to [dst]
+   with hop limit 255 and a valid checksum *)
+Definition ip6_icmp32 (b src dst : list Z) : bool :=
+  (length b =? 72)%nat && (nth 0 b 0 / 16 =? 6) && leqb (sub b 4 4) [0; 32; 58; 255] &&
+  leqb (sub b 8 16) src && leqb (sub b 24 16) dst && icmp6_sum_ok src dst (skipn 40 b).
+
+Definition spec_ndp (locals : list (list Z)) (myMAC srcMAC pkt chunks : list Z) (panicked : bool)
+  (frames : list (Z * list Z * list Z)) (lookups : list (list Z * bool * list Z)) : Z :=
+  if panicked then 1 else
+  let firstlen := match chunks with [] => length pkt | c :: _ => Nat.min (Z.to_nat c) (length pkt) end in
+  let plen := nth 4 pkt 0 * 256 + nth 5 pkt 0 in
+  let hdr_ok := (40 <=? firstlen)%nat && (plen <=? Z.of_nat (length pkt) - 40) && (nth 6 pkt 0 =? 58) in
+  let src := sub pkt 8 16 in
+  let dst := sub pkt 24 16 in
+  let msg := firstn (Z.to_nat plen) (skipn 40 pkt) in
+  let seen := Nat.min (firstlen - 40) (length msg) in
+  let ty := nth 0 msg 0 in
+  let target := sub msg 8 16 in
+  let accepted := existsb (leqb dst) locals in
+  let is_ns := hdr_ok && (ty =? 135) && (24 <=? length msg)%nat in
+  let is_na := hdr_ok && (ty =? 136) && (32 <=? length msg)%nat in
+  let split := (is_ns && (seen <? 24)%nat) || (is_na && (seen <? 32)%nat) in
+  let assigned := existsb (leqb target) locals in
+  let own := assigned && negb (is_mc target) in
+  (* the link-layer address option right behind the target, when there is a well-formed one *)
+  let stated (oty : Z) :=
+    if (32 <=? length msg)%nat && (nth 24 msg 0 =? oty) && (nth 25 msg 0 =? 1) then Some (sub msg 26 6) else None in
+  let reply_ok :=
+    match frames with
+    | [(p, b, d)] =>
+        (p =? ip6Proto) && leqb d srcMAC && ip6_icmp32 b target src &&
+        leqb (sub b 40 2) [136; 0] && leqb (sub b 44 4) [96; 0; 0; 0] && leqb (sub b 48 16) target &&
+        leqb (sub b 64 8) ([2; 1] ++ zpad 6 myMAC)
+    | _ => false
+    end in
+  (* no frame is a neighbour advertisement (an echo request among the mutations is answered by an echo reply) *)
+  let no_advert :=
+    forallb (fun f => match f with (p, b, d) => negb ((p =? ip6Proto) && (nth 40 b 0 =? 136)) end) frames in
+  (* lookups: [must] = address that has to be known, [may] = address that may be known, all others unknown;
+     a known address carries [mac] *)
+  let learn_ok (must may : list (list Z)) (mac : list Z) :=
+    forallb (fun l => match l with (ip, found, m) =>
+      if existsb (leqb ip) must then found && leqb m mac
+      else if existsb (leqb ip) may then negb found || leqb m mac || leqb m srcMAC
+      else negb found end) lookups in
+  let judge_learn (must may : list (list Z)) (st : option (list Z)) :=
+    let want := match st with Some m => m | None => srcMAC end in
+    if learn_ok must may want then 0
+    else if learn_ok must may srcMAC then 4
+    else 1 in
+  match frames with
+  | _ :: _ =>
+      if is_ns && accepted && assigned && is_mc target then (if reply_ok then 3 else 1)
+      else if is_ns && accepted && own then
+        (if reply_ok then (if all_zero src then judge_learn [] [src] (stated 1) else judge_learn [src] [] (stated 1)) else 1)
+      else if no_advert && negb is_ns && negb is_na then judge_learn [] [] None
+      else 1
+  | [] =>
+      if is_ns && negb split && own && (accepted || leqb dst (sn_of target)) then (if accepted then 1 else 2)
+      else if is_na && accepted then
+        (if split then judge_learn [] [target; src] (stated 2) else judge_learn [target] [src] (stated 2))
+      else judge_learn [] [] None
+  end.
+
+Definition spec_ndpreq (kind : Z) (addr localAddr myMAC : list Z) (panicked : bool)
+  (frames : list (Z * list Z * list Z * list Z)) : Z :=
+  if negb ((length addr =? 16)%nat && (length localAddr =? 16)%nat) then 0 (* not an IPv6 address: outside the property *)
+  else if panicked then 1 else
+  match frames with
+  | [(p, b, d, s)] =>
+      (* "a request is broadcast": to the target's solicited-node group, on the link to everybody
+         (ff:ff:ff:ff:ff:ff, what the code does) or to the group's Ethernet address (RFC 2464: 33:33:ff:xx:xx:xx) *)
+      if (p =? ip6Proto) && (leqb d bcast || leqb d ([51; 51; 255] ++ skipn 13 addr)) &&
+         ip6_icmp32 b localAddr (sn_of addr) &&
+         leqb (sub b 40 2) [135; 0] && all_zero (sub b 44 4) && leqb (sub b 48 16) addr &&
+         leqb (sub b 64 8) ([1; 1] ++ zpad 6 myMAC)
+      then 0 else 1
+  | _ => 1
+  end.
+
 Definition spec (c : case) : Z :=
   match c with
   | CArp locals myMAC srcMAC arpOn first total panicked frames lookups =>
@@ -418,13 +630,23 @@ Definition spec (c : case) : Z :=
   | CCache N age attempts timeout evs nreq next => spec_cache N age attempts [] evs
   | CScen kind via lost myMAC myIP dest gw peerMAC frames tend result =>
       if spec_scen via lost myMAC myIP dest gw peerMAC frames tend result then 0 else 1
+  | CNdp locals myMAC srcMAC pkt chunks panicked frames lookups =>
+      spec_ndp locals myMAC srcMAC pkt chunks panicked frames lookups
+  | CNdpReq kind addr localAddr myMAC panicked frames =>
+      spec_ndpreq kind addr localAddr myMAC panicked frames
   end.
 
 (* ---- tag: CArp: 0 = runt / not delivered; 1 answered request; 2 reply learned; 3 valid request
    for a foreign address; 4 valid header, other op; 5 malformed header of full length.
    CCache: 0 = nothing returned an address or blocked; 11 explicit history; 12 ring overflow
    (more events than slots); 13 real resolver timers, a resolution failed; 14 real timers, other.
-   CScen: 21 resolved after [lost] lost requests; 22 failed; 23 no resolution needed ---- *)
+   CScen: 21 resolved after [lost] lost requests; 22 failed; 23 no resolution needed.
+   CNdp: 0 = never reaches the ICMPv6 handler (runt, bad payload length, other next header,
+   destination not an address of the NIC); 31 solicitation for an assigned unicast address;
+   32 solicitation for another target; 33 advertisement; 34 solicitation / advertisement too short
+   or split behind its first view; 35 another ICMPv6 type; 36 solicitation for a joined multicast
+   group; 37 solicitation for an own address to a solicited-node group the NIC did not join.
+   CNdpReq: 0 = address not 16 bytes; 40 direct call; 41 via GetLinkAddress; 42 via a UDP write ---- *)
 Definition tag (c : case) : Z :=
   match c with
   | CArp locals myMAC srcMAC arpOn first total panicked frames lookups =>
@@ -440,6 +662,25 @@ Definition tag (c : case) : Z :=
       else 14
   | CScen kind via lost myMAC myIP dest gw peerMAC frames tend result =>
       if 2 <=? via then 23 else if 3 <=? lost then 22 else 21
+  | CNdp locals myMAC srcMAC pkt chunks panicked frames lookups =>
+      let firstlen := match chunks with [] => length pkt | c :: _ => Nat.min (Z.to_nat c) (length pkt) end in
+      let plen := nth 4 pkt 0 * 256 + nth 5 pkt 0 in
+      let hdr_ok := (40 <=? firstlen)%nat && (plen <=? Z.of_nat (length pkt) - 40) && (nth 6 pkt 0 =? 58) in
+      let dst := sub pkt 24 16 in
+      let msg := firstn (Z.to_nat plen) (skipn 40 pkt) in
+      let seen := Nat.min (firstlen - 40) (length msg) in
+      let ty := nth 0 msg 0 in
+      let target := sub msg 8 16 in
+      let assigned := existsb (leqb target) locals in
+      if negb hdr_ok then 0
+      else if negb (existsb (leqb dst) locals) then
+        (if (ty =? 135) && (24 <=? length msg)%nat && assigned && negb (is_mc target) && leqb dst (sn_of target) then 37 else 0)
+      else if ty =? 135 then
+        (if (seen <? 24)%nat then 34 else if assigned then (if is_mc target then 36 else 31) else 32)
+      else if ty =? 136 then (if (seen <? 32)%nat then 34 else 33)
+      else 35
+  | CNdpReq kind addr localAddr myMAC panicked frames =>
+      if negb ((length addr =? 16)%nat && (length localAddr =? 16)%nat) then 0 else 40 + kind
   end.
 
 Definition judge (c : case) : list Z := [corr c; spec c; tag c].
